@@ -157,7 +157,9 @@ def selftest(pid, wd, tpath):
         # (one that is delivered later on: a revocation lost with its connection would not be missed)
         if r["ev"] == "msg" and r.get("kind") == "revoke_and_ack" and any(
                 x["ev"] == "deliver" and x.get("kind") == "revoke_and_ack" and x["run"] == r["run"] and x.get("from") == r["from"]
-                and x.get("secret_point") == r.get("secret_point") for x in recs[k + 1:k + 400]):
+                and x.get("secret_point") == r.get("secret_point") for x in recs[k + 1:k + 400]) and any(
+                x["ev"] == "deliver" and x.get("kind") == "commitment_signed" and x["run"] == r["run"] and x.get("to") == r["from"]
+                and x.get("chan") == r.get("chan") for x in recs[k + 1:k + 400]):
             muts.append(("C05-raa-dropped", recs[:k] + recs[k + 1:]))
             break
     for k, r in enumerate(recs):
